@@ -40,6 +40,10 @@ def gen_template(rng):
         aid = {'perm': ids[j], 'none': None, 'partial': ids[j] if rng.random() < 0.5 else None, 'same': j + 1}[mode]
         nodes.append({'key': k, 'atomid': aid, 'name': rng.choice(NAMES), 'resname': rng.choice(['ALA', 'GLY', 'W']),
                       'resid': rng.choice([1, 2, 3, 10]), 'other': rng.randint(0, 3), 'ignored': 0})
+    if n >= 2 and rng.random() < 0.15:
+        # atoms that differ in nothing but their key, without atom ids: only the order of the keys tells two such molecules apart
+        for nd in nodes:
+            nd.update(atomid=None, name=nodes[0]['name'], resname=nodes[0]['resname'], resid=nodes[0]['resid'], other=nodes[0]['other'])
     edges = set()
     for _ in range(rng.choice([0, 1, 2, 3])):
         if n >= 2:
@@ -62,7 +66,7 @@ def perturb(rng, t):
     if r < 0.45:
         return m, kind
     nodes = m['nodes']
-    choice = rng.choice(['atomid', 'attr', 'nrexcl', 'edge', 'inter', 'order', 'name', 'oldresid', 'oldresid', 'morei', 'morei', 'dropid', 'dropid'])
+    choice = rng.choice(['atomid', 'attr', 'nrexcl', 'edge', 'inter', 'order', 'order', 'order', 'name', 'oldresid', 'oldresid', 'morei', 'morei', 'dropid', 'dropid'])
     if choice == 'dropid' and any(nd['atomid'] is not None for nd in nodes):
         # the same molecule without an attribute the other one has (the atom ids): absent is not equal to present
         for nd in nodes:
@@ -144,7 +148,7 @@ def _build(inp):
                 attrs['_old_resid'] = nd['old']
             mol.add_node(nd['key'], **attrs)
         mol.add_edges_from(m['edges'])
-        keys = [nd['key'] for nd in m['nodes']]
+        keys = sorted(nd['key'] for nd in m['nodes'])          # interactions name atoms by key, whatever the node order
         if len(keys) >= 2:
             mol.add_interaction('bonds', (keys[0], keys[1]), ['1', '0.%d' % (30 + m['inter']), '1250'])
         else:
